@@ -123,10 +123,14 @@ impl Check {
     }
 
     /// write evidence, print KNOWN-FINDING / VIOLATION lines, return the exit code
-    pub fn finish(self) -> i32 {
+    pub fn finish(mut self) -> i32 {
         let prop = self.cfg.prop.clone();
         let root = verif_root();
         let wall = self.started.elapsed().as_secs_f64();
+        let forced = crate::wire::forced_shutdowns();
+        if forced > 0 {
+            self.notes.push(format!("{forced} in-process server(s) did not finish their shutdown within the harness' 20 s budget and were stopped by force (not judged: no listed property is about how fast a server stops)"));
+        }
 
         let mut evaluations = 0u64;
         let mut distinct = 0u64;
